@@ -109,17 +109,22 @@ theorem backup_data (l : List (Nat × FileSt)) : ∀ (acc : List (Nat × FileSt)
       · simp only [List.mem_singleton] at hx
         rw [hx]; exact ha.1 z hz
 
-theorem backup_eq (s : St) (db : DB) (d : DirSt) (dest : String) (hdb : s.db = some db)
-    (hd : s.world.get db.dir = some d) (hfresh : s.world.get dest = none) (hasc : AscF d.data) :
-    backup s dest = (⟨s.world.set dest ⟨syncAll d.data, d.hint, none, false⟩, s.db⟩, .ok) := by
+/-- `Backup`, whatever `dest` held before: the copy's data files and hint file are exactly the
+    source's (flushed); the other attributes of an existing `dest` are kept -/
+theorem backup_eq' (s : St) (db : DB) (d : DirSt) (dest : String) (hdb : s.db = some db)
+    (hd : s.world.get db.dir = some d) :
+    backup s dest = (⟨s.world.set dest ⟨syncAll d.data, d.hint, ((s.world.get dest).getD DirSt.empty).marker,
+      ((s.world.get dest).getD DirSt.empty).locked⟩, s.db⟩, .ok) := by
   unfold backup withDB
   rw [hdb]
-  simp only [dirOf, hd, hfresh, Option.getD_some, Option.getD_none]
-  have := backup_data d.data [] hasc (by simp)
-  simp only [List.nil_append] at this
-  rw [show DirSt.empty.data = [] from rfl, this]
-  congr 3
-  cases d.hint <;> rfl
+  simp only [dirOf, hd, Option.getD_some]
+  rfl
+
+theorem backup_eq (s : St) (db : DB) (d : DirSt) (dest : String) (hdb : s.db = some db)
+    (hd : s.world.get db.dir = some d) (hfresh : s.world.get dest = none) (_hasc : AscF d.data) :
+    backup s dest = (⟨s.world.set dest ⟨syncAll d.data, d.hint, none, false⟩, s.db⟩, .ok) := by
+  rw [backup_eq' s db d dest hdb hd, hfresh]
+  rfl
 
 theorem plan_set (w : World) (n dir : String) (x : DirSt)
     (h : n ≠ mergeDirName dir ∨ ∃ d, w.get n = some d ∧ x.marker = d.marker) :
